@@ -416,11 +416,16 @@ impl SyncState {
                     len_after: Some(n), ..
                 } = &ev.op
                 {
-                    // a file found on open is taken as durable up to its length (C12 speaks
-                    // about what the session itself wrote)
+                    // a file the log has never seen is taken as durable up to its length (C12
+                    // speaks about what the storage itself wrote); a file written earlier in the
+                    // log keeps its synced length: after a drop without close its tail is not
+                    // known to be durable
+                    let known = self.len.contains_key(&ev.path);
                     self.len.insert(ev.path.clone(), *n);
                     let s = self.synced.entry(ev.path.clone()).or_insert(0);
-                    if *n > *s || *n == 0 {
+                    if !known || *n == 0 {
+                        *s = *n;
+                    } else if *s > *n {
                         *s = *n;
                     }
                 }
